@@ -20,6 +20,7 @@ type TV struct {
 	F     uint64   `json:"f,omitempty"` // float64 bits, or float32 bits in the low word
 	S     string   `json:"s,omitempty"`
 	B     bool     `json:"b,omitempty"`
+	Nil   bool     `json:"nil,omitempty"` // (typed Object/List flavours) this entry is a nil interface value
 	Items []TV     `json:"items,omitempty"`
 	Keys  []string `json:"keys,omitempty"`
 }
@@ -147,6 +148,7 @@ func genTV(t *rapid.T, depth int) TV {
 			it.I = int64(i64)
 			it.Items = []TV{{T: "int", I: int64(i)}}
 			it.Keys = []string{"n"}
+			it.Nil = drawInt(t, 0, 5, "nilentry") == 0
 			tv.Items = append(tv.Items, it)
 			tv.Keys = append(tv.Keys, []string{"a", "b", "", "k.1"}[i%4])
 		}
@@ -277,6 +279,10 @@ func toGo(tv TV) any {
 	case "slice_Object":
 		s := []at.Object{}
 		for _, it := range tv.Items {
+			if it.Nil {
+				s = append(s, nil)
+				continue
+			}
 			s = append(s, objFromItem(it))
 		}
 		return s
@@ -285,6 +291,10 @@ func toGo(tv TV) any {
 	case "slice_List":
 		s := []at.List{}
 		for _, it := range tv.Items {
+			if it.Nil {
+				s = append(s, nil)
+				continue
+			}
 			s = append(s, listFromItem(it))
 		}
 		return s
@@ -325,6 +335,10 @@ func toGo(tv TV) any {
 	case "map_Object":
 		m := map[string]at.Object{}
 		for i, it := range tv.Items {
+			if it.Nil {
+				m[tv.Keys[i]] = nil
+				continue
+			}
 			m[tv.Keys[i]] = objFromItem(it)
 		}
 		return m
@@ -333,6 +347,10 @@ func toGo(tv TV) any {
 	case "map_List":
 		m := map[string]at.List{}
 		for i, it := range tv.Items {
+			if it.Nil {
+				m[tv.Keys[i]] = nil
+				continue
+			}
 			m[tv.Keys[i]] = listFromItem(it)
 		}
 		return m
@@ -472,8 +490,14 @@ func expectTV(tv TV) (V, bool) {
 	leaf := func(it TV) (V, bool) {
 		switch tv.T {
 		case "slice_Object", "map_Object":
+			if it.Nil {
+				return VNil(), true // a nil interface entry is the nil kind
+			}
 			return vOfItemObject(it), true
 		case "slice_List", "map_List":
+			if it.Nil {
+				return VNil(), true
+			}
 			return vOfItemList(it), true
 		case "slice_string", "map_string":
 			return VStr(it.S), true
